@@ -3,7 +3,7 @@ import itertools, math
 from fractions import Fraction as Fr
 
 Q_LIST = [[], [1], [2], [3], [1, 2], [2, 2]]
-S_LIST = [[], [0], [1], [2], [3], [0, 2], [1, 2]]
+S_LIST = [[], [0], [1], [2], [3], [0, 2], [1, 2], [2, 1]]
 L_LIST = [0, 1, 2]
 
 
